@@ -2,8 +2,11 @@
 Proof: coq/Properties_C10_calc.v (TCalc: task-level operational semantics of coroutine bodies, all bodies x all
 scripts).  Tie: K2 over generated C++20 coroutine bodies (tools/k2t.py, harness/k2t.hpp) compared event by event
 with the extracted model; the extracted monitor and an independent Python monitor run on the implementation's
-traces.  Below the model: frame allocation, symmetric transfer, compiler generated coroutine code."""
-import k2t
+traces.  K1 (shim20): the stop-request thunk of task<> (refCount_ election) on the real task.hpp under explored
+schedules vs the SrThunk model (coq/Properties_C10_srthunk.v).
+Below the model: frame allocation, symmetric transfer, compiler generated coroutine code."""
+import k1, k2t
+from units.sr_thunk import SrThunk
 LEVEL = "proof"
 def run(chk, replay=None):
     chk.cov["rule"] = ("K2 (C++20): generated coroutine bodies x scripts (leaf outcomes at each suspension point, stop at any "
@@ -11,4 +14,5 @@ def run(chk, replay=None):
     chk.cov["trusted_base"] = ["g++ 12 coroutine code generation", "harness/k2t.hpp", "ocaml/handlers/h_tcalc.ml (rendering)"]
     chk.prove()
     quick = chk.tier == "quick"
+    k1.run_unit(chk, SrThunk())
     k2t.run_k2t(chk, n_tus=5 if quick else 24, cases_per_tu=8, scripts_per_case=40 if quick else 80)
